@@ -26,18 +26,19 @@ G2 = pb.PEL(pb.SRC(ascii=b"BD8D2222", flags=1, callouts=_co()), ph=dict(eid=0x50
 J = pb.PEL(pb.SRC(ascii=b"BD8D3333", flags=1, callouts=_co()), pb.UD(b"\x01\x02\x03\x04\x05", comp=0x4321),
            ph=dict(eid=0x50000003, plid=0x50000001))
 
-MODES = ["l", "a", "n", "plid", "src", "j", "ahex", "lrev", "bmc"]
+MODES = ["l", "a", "n", "plid", "src", "j", "ahex", "lrev", "bmc", "nE", "plidhex"]
 KINDS = ["empty", "rand12", "trunc:60-76", "trunc:200-216", "trunc:296-305", "corrupt:0-4", "corrupt:48-52", "corrupt:72-76",
-         "corrupt:83-84", "corrupt:212-214", "corrupt:214-215", "corrupt:215-216", "corrupt:154-156", "corrupt:156-157", "subdir"]
+         "corrupt:83-84", "corrupt:212-214", "corrupt:214-215", "corrupt:215-216", "corrupt:154-156", "corrupt:156-157", "subdir",
+         "subdir-only", "trunc:48-72"]
 CASES = ["%s/%s" % (m, k) for m in MODES for k in KINDS] + ["a/corrupt:214-215:v40", "l/corrupt:214-215:v40"]
-QUICK = ["bmc/corrupt:0-4", "a/corrupt:214-215:v40", "l/corrupt:214-215:v40", "a/trunc:200-216", "n/corrupt:48-52", "j/corrupt:83-84", "plid/rand12",
+QUICK = ["a/corrupt:0-4", "nE/trunc:48-72", "plidhex/trunc:200-216", "l/subdir-only", "bmc/corrupt:0-4", "a/corrupt:214-215:v40", "l/corrupt:214-215:v40", "a/trunc:200-216", "n/corrupt:48-52", "j/corrupt:83-84", "plid/rand12",
          "src/empty", "ahex/corrupt:0-4", "a/subdir", "l/corrupt:83-84", "lrev/trunc:60-76"]
 HARNESSES = [{"fn": "h_isolate", "cases": CASES, "quick_cases": QUICK, "timeout": {"quick": 120, "thorough": 900}}]
 BOUNDS = {"directory": "two well-formed logs + one extra file whose sorted position (first / middle / last) is symbolic",
           "extra file": "empty; 12 symbolic bytes; truncation of a 305-byte log at a symbolic offset (3 windows); one "
                         "corrupted byte (symbolic offset in a window, symbolic value) in PH id, UH id, SRC header, SRC word "
                         "count, callout header, PCE identity; a sub-directory with files",
-          "modes": "-l, -a, -n, --plid, --src, -j, -a --hex, -l --reverse, --bmc-id"}
+          "modes": "-l, -a, -n, -n -E, --plid, --plid --hex, --src, -j, -a --hex, -l --reverse, --bmc-id"}
 ASSUMPTIONS = ["file system, print, argparse replaced by the in-memory world (E1, E2, E4); print / sys of src.py and comp_id.py "
                "are routed to the same recorder", "JSON text replaced by the token (M7); documents are compared through the "
                "remembered objects", "'cannot decode' = the mode, run on the extra file alone, reports nothing"]
@@ -52,8 +53,12 @@ def _opts(mode):
     elif mode in ("a", "ahex"):
         o["all"] = True
         o["hex"] = mode == "ahex"
-    elif mode == "n":
+    elif mode in ("n", "nE"):
         o["show_pel_count"] = True
+        o["every_pel"] = mode == "nE"
+    elif mode == "plidhex":
+        o["plID"] = "0x50000001"
+        o["hex"] = True
     elif mode == "plid":
         o["plID"] = "0x50000001"
     elif mode == "src":
@@ -95,9 +100,9 @@ def _nothing(w, mode):
         return len(outs) == 1 and hasattr(outs[0], "obj") and outs[0].obj == {}
     if mode == "a":
         return outs == ["[", "]"]
-    if mode == "ahex":
+    if mode in ("ahex", "plidhex"):
         return outs == []
-    if mode == "n":
+    if mode in ("n", "nE"):
         return outs == ['{\n    "Number of PELs found": 0\n}']
     if mode == "j":
         return not any(e[0] == "open_w" for e in w.events)
@@ -110,7 +115,7 @@ def _well_framed(w, mode):
     outs = w.stdout()
     if mode in ("l", "lrev", "plid", "src"):
         return len(outs) == 1 and hasattr(outs[0], "obj")
-    if mode == "n":
+    if mode in ("n", "nE"):
         return len(outs) == 1 and isinstance(outs[0], str) and outs[0].startswith('{\n    "Number of PELs found": ')
     if mode == "a":
         if len(outs) < 2 or outs[0] != "[" or outs[-1] != "]":
@@ -129,7 +134,7 @@ def _well_framed(w, mode):
         return len(body) % 2 == 1
     if mode == "bmc":
         return len(outs) == 1 and (hasattr(outs[0], "obj") or outs[0] == "PEL not found")
-    if mode == "ahex":
+    if mode in ("ahex", "plidhex"):
         begins = [i for i, o in enumerate(outs) if o == "-------------- PEL Begin  ----------------"]
         ends = [i for i, o in enumerate(outs) if o == "-------------- PEL End    ----------------"]
         return len(begins) == len(ends) and all(b < e for b, e in zip(begins, ends))
@@ -177,6 +182,15 @@ def h_isolate() -> bool:
         for cand in range(a, b):
             if i == cand:
                 extra = mkbytes(J[:cand], [v], J[cand + 1:])
+    elif kind == "subdir-only":
+        # nothing but sub-directories in the PEL directory: the result is that of an empty directory
+        try:
+            w0, s0 = _run([], mode)
+            w1, s1 = _run([], mode, subdirs={"archive": [("x_50000009", J), ("y_50000002", G2)], "empty": []})
+        except Exception as e:
+            return verdict(False, obs={"exception": repr(e)})
+        return verdict(sym_all([s0 == 0, s1 == 0, _norm(w1) == _norm(w0), _nothing(w1, mode) or mode == "bmc"]),
+                       obs={"with": [str(o)[:60] for o in w1.stdout()]})
     else:
         subdirs = {"archive": [("x_50000009", J), ("junk", b"zz")]}
     try:
